@@ -72,7 +72,7 @@ def wl_heavy(ctx, rng, case):
         r = rng.random()
         if r < 0.93:
             k = rng.choice(keys)
-            n = rng.choice([1, 1, 1, 2, 3, 10])
+            n = rng.choice([1, 1, 1, 2, 3, 10]) if rng.random() < 0.93 else 0  # an add of nothing still returns an estimate the table must follow
             was_tracked = set(hh.heavy_hitters) if every == 1 else set()
             if rng.random() < 0.85:
                 case.op("add", k, n)
@@ -154,7 +154,7 @@ def wl_threshold(ctx, rng, case):
         live = [k for k in keys if true[k] > 0]
         if r < 0.6 or not live:
             k = rng.choice(keys)
-            n = rng.choice([1, 1, 2, 3, 5])
+            n = rng.choice([1, 1, 2, 3, 5]) if rng.random() < 0.93 else 0
             if rng.random() < 0.85:
                 case.op("add", k, n)
                 ret = st.add(k, n)
